@@ -176,8 +176,9 @@ def _fitted_diff(case, a, b):
 
 
 def _repro_sig(case, sig):
-    """Reproducibility oracles (3, 4) on a case whose ARPACK factorisation is not unique get one call-site signature."""
-    if getattr(case, "arpack_degenerate", False):
+    """Reproducibility oracles (3, 4) on a case whose ARPACK factorisation is not unique get one call-site signature.
+    The spectrum is that of the training subset in use (case._cur_train, set by the history)."""
+    if case.is_arpack_degenerate(getattr(case, "_cur_train", case.train_ids)):
         return f"C13|{case.cls.__name__}|not-reproducible|arpack-degenerate-spectrum"
     return sig
 
@@ -244,8 +245,11 @@ def _history(tape, ctx, case, rig, probes, faults, allow_cancel):
         k = len(case.train_ids)
         train_sets.append(list(range(len(case.pool) - k, len(case.pool))))
     cur_train = train_sets[0]
+    case._cur_train = cur_train
     can_alt_vectors = isinstance(case, A.WassersteinCase) and case.which not in ("ApproxW", "W-heuristic")
 
+    held = {}               # name -> (object, snapshot): inputs of the primary's last successful fit
+    last_fit_objects = {}
     primary, p_objs = case.new_estimator()
     fitted = False
     fit_method = None
@@ -325,6 +329,20 @@ def _history(tape, ctx, case, rig, probes, faults, allow_cancel):
             fn = lambda X_, kw_: case.call_fit(primary, fn_kind, X_, kw_)  # noqa: E731
         st, val, info = rig.call(primary, p_objs, opname, fn, X, kw, io_fault=io_fault, cancel_at=cancel_at,
                                  fault_label=label, is_generator=is_gen)
+        # objects given to the last successful fit must still be as the caller left them
+        for name, (obj, before) in held.items():
+            after = snap(obj)
+            if after != before:
+                raise Violation(f"C13|{tag}|fit-input-mutated-by-later-call|arg={name}|by={opname}",
+                                f"{opname} (primary) modified an object that had been passed to the earlier fit: "
+                                f"{diff(before, after, name)}", desc)
+        if fn_kind != "transform":
+            last_fit_objects.clear()
+            if not is_gen:
+                last_fit_objects["X"] = (X, snap(X))
+            for k_, v_ in kw.items():
+                if not hasattr(v_, "send"):
+                    last_fit_objects[k_] = (v_, snap(v_))
         if fault is not None and fault[0] == "reader" and rstats.get("fired"):
             faults.hit(f"reader:{fault[1][0]}")
         if fault is not None and fault[0] == "data":
@@ -343,6 +361,7 @@ def _history(tape, ctx, case, rig, probes, faults, allow_cancel):
             method = tape.choice("h.fit_method", list(case.fit_methods))
             if op == "refit" and len(train_sets) > 1:
                 cur_train = train_sets[tape.weighted("h.train_set", [(2, 0), (1, 1)])]
+                case._cur_train = cur_train
                 if cur_train is train_sets[1]:
                     probes.hit("refit-on-different-data")
             # rehearsal on a pristine twin (fault-free configuration), perturbed global RNG
@@ -377,6 +396,9 @@ def _history(tape, ctx, case, rig, probes, faults, allow_cancel):
                                 f"pristine twin {method} raised {type(tval).__name__}: {tval} while the primary returned", desc)
             fitted = True
             fit_method = method
+            # the objects handed to this fit stay the caller's: re-checked after every later call on the primary
+            held.clear()
+            held.update(last_fit_objects)
             # oracle 4: same seed, same model (the twin was fitted under a different global RNG state / schedule)
             if not (fault and fired):
                 d = _fitted_diff(case, primary, twin)
